@@ -20,19 +20,33 @@ LEVEL_TEXT = ('Full: every clause of C14 is a Coq theorem about the executable D
               'sets); unknown/bc indices partition the dofs, strictly increasing, disjoint; sizes; create_field/get_* round trips for arbitrary '
               'value types; dofToUnknown inverse of unknownIndices and -1 exactly on constrained dofs; component (and general basic) slices of the '
               'unknown vector; Hessian row/col arrays and mask address exactly the unknown x unknown pairs of every element, each once, with '
-              '(row, col) = (unknown of b, unknown of a). The model is tied to the source by exact integer correspondence on every run.')
-TECHNIQUE = 'Coq proof over a hand-written list/nat/Z model of DofManager (NumPy semantics); exact vm_compute correspondence with the real DofManager'
+              '(row, col) = (unknown of b, unknown of a); the matrix the assembler builds from the maps is the matrix assembled by hand. '
+              'The SOURCE is the model, for all inputs: the syntax trees of every DofManager method and of assemble_sparse_stiffness_matrix are '
+              're-extracted from the AST on every run (gen/CFG_Dof.v) and run by a NumPy-subset interpreter in Coq; theorems C14_source_*: the '
+              'interpreted CONSTRUCTOR (loop invariants, by induction, for the BC loop of __init__, both loops of _make_hessian_coordinates and the '
+              'loop of _make_hessian_bc_mask) builds the model object for every node-set table, BC list, number of fields and every rectangular '
+              'in-range connectivity (also without elements); every interpreted public method on the constructed object is the model function; '
+              'the interpreted assembler on the constructed object returns the by-hand matrix of the declared BCs. '
+              'A syntactic guard (alias_safe, checked by computation on the extracted trees: no array updated in place is observable through '
+              'another name) backs the value semantics the interpreter gives to in-place updates; it rejects e.g. dropping .copy() of rowCoords. '
+              'NOT proved (trusted): that the interpreter gives the NumPy subset its NumPy meaning (mask / integer-array / slice assignment, '
+              'tile/ravel/.T; sufficiency of the aliasing guard) -- tied by exact correspondence of the interpreted source, the hand model and the '
+              'running DofManager / assembler on every run; negative and out-of-range indices are outside the model.')
+TECHNIQUE = ('Coq proof over a hand-written list/nat/Z model of DofManager (NumPy semantics) and over the syntax trees of the source run by an interpreter '
+             '(loop invariants through the interpreter); exact vm_compute correspondence with the real DofManager')
 GEN = ['CFG_Dof']
-TARGETS = ['model/M_C14_Dof.vo', 'proofs/L_C14.vo', 'model/M_C14_Asm.vo', 'proofs/L_C14_Asm.vo', 'model/M_C14_IR.vo', 'gen/CFG_Dof.vo', 'proofs/L_C14_IR.vo']
-COQ_FILES = ['model/M_C14_Dof.v', 'proofs/L_C14.v', 'model/M_C14_Asm.v', 'proofs/L_C14_Asm.v', 'model/M_C14_IR.v', 'proofs/L_C14_IR.v', 'props/P_C14.v']
+TARGETS = ['model/M_C14_Dof.vo', 'proofs/L_C14.vo', 'model/M_C14_Asm.vo', 'proofs/L_C14_Asm.vo', 'model/M_C14_IR.vo', 'gen/CFG_Dof.vo', 'proofs/L_C14_IR.vo', 'proofs/L_C14_Ctor.vo']
+COQ_FILES = ['model/M_C14_Dof.v', 'proofs/L_C14.v', 'model/M_C14_Asm.v', 'proofs/L_C14_Asm.v', 'model/M_C14_IR.v', 'proofs/L_C14_IR.v', 'proofs/L_C14_Ctor.v', 'props/P_C14.v']
 TRUSTED = ['Coq 8.16.1 kernel + vm_compute (no native_compute)',
            'hand-written model of DofManager (NumPy boolean-mask selection / .at[mask].set / integer-array assignment / tile / ravel written as list '
            'recursions); tied to optimism/FunctionSpace.py only by the exact correspondence on seeded random meshes and BC sets',
+           'the NumPy-subset interpreter of model/M_C14_IR.v (meaning of the extracted syntax trees; value semantics for in-place updates) and the '
+           'purely syntactic AST-to-IR translation tools/vlib/extract_dof.py (fail-closed); tied by the exact IR stream on every run',
            'correspondence harness (case generator, int exchange with coqc, Python mirror of the theorem conclusions used as L2)']
 ASSUMPTIONS = ['node ids in node sets and connectivities are in range and components are < number of fields (NumPy raises IndexError otherwise; '
                'negative wrap-around indices are outside the model)',
                'the connectivity table is rectangular (one element type per mesh), as the Mesh type requires']
-RULE = ('every fourth case is followed by a twin on the same mesh whose BC pattern is shifted by one node (same counts and shapes; the first DofManager is re-read afterwards); cases: seeded structured meshes of order 1..3 through the real Mesh/FunctionSpace constructors and random connectivity tables with arbitrary '
+RULE = ('every fourth case is followed by a twin on the same mesh whose BC pattern is shifted by one node (same counts and shapes; the first DofManager is re-read afterwards); cases: one mesh without elements (zero-trip loops); seeded structured meshes of order 1..3 through the real Mesh/FunctionSpace constructors and random connectivity tables with arbitrary '
         'node numbering (3/6/10 nodes per element), 1..3 fields, BC lists drawn from {empty, full, full twice, single random set, overlapping '
         'sets, sets with repeated nodes, empty node set, random}; a case is non-trivial when 0 < #bc < #dofs or it is one of the named edge '
         'patterns; distinct = distinct (nNodes, dim, connectivity, mask) tuples')
@@ -111,6 +125,8 @@ def gen_cases(ctx):
     # sizes beyond small-integer ranges on every run: > 255 unknowns through the model as well, > 32767 unknowns against the
     # theorem conclusions only (the model evaluation of 2 million Hessian entries is out of reach for coqc)
     cases.append(dict(src='structured', Nx=r.randrange(17, 20), Ny=r.randrange(17, 20), order=1, dim=1, kind='random', bcseed=r.randrange(1 << 30)))
+    # a mesh WITHOUT elements: zero trips through the three helper loops (C14_source_constructor_all covers it; shapes are (0, 3*dim, 3*dim))
+    cases.append(dict(src='random', nNodes=r.randrange(2, 9), conns=[], dim=r.choice([1, 2, 3]), kind='random', bcseed=r.randrange(1 << 30), zero_elements=True))
     nx, ny = 110, r.randrange(110, 114)
     big = [([r.randrange(nx * ny) for _ in range(r.randrange(50, 400))], r.randrange(3)) for _ in range(r.randrange(1, 4))]
     cases.append(dict(src='structured', Nx=nx, Ny=ny, order=1, dim=3, kind='random', ebcs=big, bcseed=r.randrange(1 << 30), nomodel=True))   # > 32767 unknowns
@@ -130,7 +146,8 @@ def build(case):
         nNodes = case['nNodes']
         rr = random.Random(case['bcseed'] ^ 0x5a5a)
         coords = onp.array([[rr.random(), rr.random()] for _ in range(nNodes)])
-        mesh = Mesh.Mesh(coords, onp.array(case['conns'], dtype=int), onp.arange(nNodes), None, None,
+        carr = onp.array(case['conns'], dtype=int) if case['conns'] else onp.zeros((0, 3), dtype=int)
+        mesh = Mesh.Mesh(coords, carr, onp.arange(nNodes), None, None,
                          {'block_0': onp.arange(len(case['conns']))}, None, None)
     r = random.Random(case['bcseed'])
     pat = case.get('ebcs')
@@ -574,6 +591,11 @@ def conclusions(o):
     conns = o['conns']
     npe = len(conns[0]) if conns else 0
     nd = npe * dim
+    if not conns:
+        # no elements: the three arrays are empty whatever the number of nodes per element of the (0, npe) table
+        if o['mask_shape'][0] != 0 or rows or cols or mask:
+            bad.append('mesh without elements: Hessian maps are not empty (mask shape %s, %d rows, %d cols)' % (o['mask_shape'], len(rows), len(cols)))
+        return bad
     if o['mask_shape'] != [len(conns), nd, nd]:
         bad.append('hessian_bc_mask has shape %s, expected %s' % (o['mask_shape'], [len(conns), nd, nd]))
         return bad
@@ -687,6 +709,8 @@ def single_stream(ctx, model_ok, cases=None):
         if 0 < nb < len(o['isBc']) or case['kind'] in ('empty', 'full', 'full_twice', 'empty_set'):
             distinct.add(key)
         kinds[case['kind']] = kinds.get(case['kind'], 0) + 1
+        if not o['conns']:
+            ctx.count('zero_element_meshes')
         bad = conclusions(o)
         ctx.count('conclusion_checks')
         for b in bad[:3]:
@@ -717,6 +741,7 @@ def single_stream(ctx, model_ok, cases=None):
     # IR tie: the syntax trees of DofManager extracted from the source on this run (gen/CFG_Dof.v), run by the interpreter of
     # model/M_C14_IR.v on the same cases (constructor incl. both Hessian helper methods, get_*_size), against the implementation
     sub = [(c, o) for c, o in zip(kept, outs) if len(o['rows']) <= 4000][:ctx.n(24, 160)]
+    sub += [(c, o) for c, o in zip(kept, outs) if c.get('zero_elements') and not any(c is c2 for c2, _ in sub)]   # zero-trip loops, always
     res = C.coq_eval(IMPORTS_IR, [ir_expr(o) for (_, o) in sub], 'C14i', shard=ctx.n(4, 10), timeout=900)
     ni = 0
     for (case, o), zs in zip(sub, res):
